@@ -22,6 +22,9 @@ struct Frame {
 }
 
 pub struct PairRun {
+    last_connect: Option<P>,
+    last_connack: Option<P>,
+    nconn: usize,
     c: Side,
     s: Side,
     c2s: VecDeque<Frame>,
@@ -112,6 +115,13 @@ impl PairRun {
                 if who == "c" { self.c2s.push_back(f) } else { self.s2c.push_back(f) }
             }
         }
+        if r.call.op == "send" && r.call.pkt.kind == "connect" && !r.out.iter().any(|e| e.ev == "error") {
+            self.last_connect = Some(r.call.pkt.clone());
+            self.nconn += 1;
+        }
+        if r.call.op == "send" && r.call.pkt.kind == "connack" {
+            self.last_connack = Some(r.call.pkt.clone());
+        }
         if r.call.op == "send" {
             let p = &r.call.pkt;
             self.duties.remove(&(who.to_string(), p.kind.clone(), p.pid));
@@ -165,7 +175,8 @@ impl PairRun {
 
 fn start(trie: &mut Trie, st: &mut Stats, newc: &Call, news: &Call) -> Option<PairRun> {
     st.schedules += 1;
-    let mut run = PairRun { c: PairRun::new_side(newc), s: PairRun::new_side(news), c2s: VecDeque::new(), s2c: VecDeque::new(),
+    let mut run = PairRun { last_connect: None, last_connack: None, nconn: 0,
+                            c: PairRun::new_side(newc), s: PairRun::new_side(news), c2s: VecDeque::new(), s2c: VecDeque::new(),
                             duties: BTreeSet::new(), cur: 0, dead: false };
     for (who, call) in [("c", newc), ("s", news)] {
         let sd = side(&mut run, who);
@@ -223,6 +234,103 @@ pub fn execute_pair_edge(trie: &mut Trie, e: &Value, st: &mut Stats) {
         }
         prev_acquire = if call.op == "acquire" { Some(who.clone()) } else { None };
     }
+    run_to_quiescence(&mut run, trie, st);
+}
+
+/// After a replayed schedule: let the exchange run to quiescence (the application answers every duty, every
+/// frame in flight is delivered, a lost transport is resumed with the same limits, identifiers acquired but
+/// never used are given back), so that the delivery / release / vacancy clauses of C01 are evaluated at the
+/// end of EVERY explored history, and an endless response loop shows as an exhausted step budget.
+fn run_to_quiescence(run: &mut PairRun, trie: &mut Trie, st: &mut Stats) {
+    let ver = match &run.last_connect {
+        Some(p) => p.ver.clone(),
+        None => return,
+    };
+    for _ in 0..120 {
+        if run.dead || run.quiet() {
+            return;
+        }
+        if run.c.t.close_req || run.s.t.close_req || run.c.t.partial || run.s.t.partial
+            || (run.c.t.conn == "disc" && run.c.t.tr) || (run.s.t.conn == "disc" && run.s.t.tr)
+        {
+            if !(run.step(trie, st, "c", &Call::of("closed"), false) && run.step(trie, st, "s", &Call::of("closed"), false)) {
+                return;
+            }
+            continue;
+        }
+        for who in ["c", "s"] {
+            let held = side(run, who).t.held.clone();
+            if let Some(id) = held.first() {
+                let mut c = Call::of("release");
+                c.id = *id;
+                if !run.step(trie, st, who, &c, false) { return; }
+            }
+        }
+        if run.c.t.conn == "disc" && run.s.t.conn != "disc" {
+            // the transport is gone for the client: the server's side of it goes too (in-flight bytes are lost)
+            if !run.step(trie, st, "s", &Call::of("closed"), false) { return; }
+            continue;
+        }
+        if run.s.t.conn == "disc" && (run.c.t.conn == "connected" || (run.c.t.conn == "connecting" && run.c2s.is_empty())) {
+            if !run.step(trie, st, "c", &Call::of("closed"), false) { return; }
+            continue;
+        }
+        if run.c.t.conn == "disc" {
+            let mut p = run.last_connect.clone().unwrap();
+            p.clean = false;
+            let mut c = Call::of("send");
+            c.pkt = p;
+            if !run.step(trie, st, "c", &c, false) { return; }
+            continue;
+        }
+        if !run.c2s.is_empty() {
+            let mut c = Call::of("recv");
+            c.flag = true;
+            if !run.step(trie, st, "s", &c, false) { return; }
+            continue;
+        }
+        if !run.s2c.is_empty() {
+            let mut c = Call::of("recv");
+            c.flag = true;
+            if !run.step(trie, st, "c", &c, false) { return; }
+            continue;
+        }
+        let duties: Vec<(String, String, i64)> = run.duties.iter().cloned().collect();
+        let mut acted = false;
+        for (who, kind, pid) in duties {
+            let need = if kind == "connack" { "connecting" } else { "connected" };
+            if side(run, &who).t.conn != need {
+                continue;
+            }
+            let mut p = P::of(&kind, &ver);
+            p.pid = pid;
+            if kind == "connack" {
+                if let Some(k) = &run.last_connack {
+                    p = k.clone();
+                    p.rc = 0;
+                }
+                p.sp = run.nconn > 1;
+            }
+            let mut c = Call::of("send");
+            c.pkt = p;
+            if !run.step(trie, st, &who, &c, false) { return; }
+            acted = true;
+            break;
+        }
+        if !acted {
+            return; // nothing more can happen (e.g. a duty that cannot be answered in this state)
+        }
+    }
+    // step budget exhausted without reaching quiescence: recorded as a non-termination marker node
+    let body = json!({"who": "c", "call": Call::of("nontermination"), "out": [], "obs": Value::Null, "dig": Value::Null,
+                      "panic": true, "msg": "exchange did not reach quiescence within the step budget", "shadow": "none",
+                      "outF": [], "obsF": Value::Null, "panicF": false, "quiet": false});
+    let mut b = body;
+    b["obs"] = trie.nodes[run.cur].2.get("obs").cloned().unwrap_or(Value::Null);
+    b["obsF"] = b["obs"].clone();
+    b["dig"] = trie.nodes[run.cur].2.get("dig").cloned().unwrap_or(Value::Null);
+    let _ = trie.child(run.cur, "c:nontermination", b);
+    st.panics += 1;
 }
 
 /// Seeded random two-endpoint workloads: up to `steps` application operations, random chunking,
